@@ -601,6 +601,11 @@ func (vc *VC) posOf(p token.Pos) string {
 
 // oblige records a proof obligation at the current program point.
 func (vc *VC) oblige(kind, detail, goal string, tags []string, pos token.Pos, cl *Clause) *Obligation {
+	if len(tags) == 0 && !(kind == "cover") {
+		// a clause without a property tag supports every tagged clause of its function (it is assumed when they
+		// are proved), so it is an obligation of each of those properties
+		tags = vc.tagsOfFunc()
+	}
 	vc.counts[kind]++
 	name := fmt.Sprintf("%s/%s#%d", vc.Name, kind, vc.counts[kind])
 	if detail != "" {
